@@ -268,7 +268,7 @@ func setupFile(v6 bool, args ...string) (handler.Handler6, handler.Handler4, err
 					continue
 				}
 
-				log.Infof("updated to %d leases from %s", len(StaticRecords), filename)
+				log.Infof("updated to %d leases from %s", numStaticRecords(), filename)
 				if verifhook.On {
 					verifhook.Point("file.reload.ok", v6, filename)
 				}
@@ -276,7 +276,7 @@ func setupFile(v6 bool, args ...string) (handler.Handler6, handler.Handler4, err
 		}()
 	}
 
-	log.Infof("loaded %d leases from %s", len(StaticRecords), filename)
+	log.Infof("loaded %d leases from %s", numStaticRecords(), filename)
 	// The DHCPv4 and the DHCPv6 instance each serve from their own file, so the
 	// handlers are bound to the records of their protocol and not to whichever
 	// file was (re)loaded last
@@ -287,6 +287,14 @@ func setupFile(v6 bool, args ...string) (handler.Handler6, handler.Handler4, err
 		return handle4(&DHCPv4Records, req, resp)
 	}
 	return h6, h4, nil
+}
+
+// numStaticRecords reads the size of the current table under the lock: the
+// watcher of another instance may be replacing it at any time
+func numStaticRecords() int {
+	recLock.RLock()
+	defer recLock.RUnlock()
+	return len(StaticRecords)
 }
 
 func loadFromFile(v6 bool, filename string) error {
